@@ -15,6 +15,11 @@ for p in sorted(glob.glob(os.path.join(V, "driver", "manifest.d", "C*.json"))):
     d.setdefault("replay_cmd_template", "python3 driver/check.py %s --replay {path}" % pid)
     d.setdefault("engine", "coq-correspondence")
     checks.append(d)
+claimed = {c["property_id"] for c in checks} | {n["property_id"] for n in na}
+for l in open(os.path.join(V, "properties.jsonl")):
+    pid = json.loads(l)["id"]
+    if pid not in claimed:
+        na.append({"property_id": pid, "reason": "no check registered yet: the Coq model and correspondence harness for this property are still being built (technique applies; see DESIGN.md section 5)"})
 m = {
  "version": 1,
  "setup_cmd": "sh coq/mk_coqproject.sh && make -C coq -j16 && sh driver/warm.sh",
